@@ -19,7 +19,7 @@ TEXT["C09"] = {
 }
 TEXT["C06"] = {
     "engine": "harness/c06 (E-api rapid, round trip)",
-    "technique": "property-based round-trip testing of output caching/restoring through the real output registry over generated trees and generated prior destination states",
+    "technique": "property-based round-trip testing of output caching/restoring through the real output registry over generated trees and generated prior destination states (also under the race detector), and of `grog run` on restored bin outputs through the real binary",
     "design_ref": "DESIGN.md §4 C06",
     "level_text": "Generated file and directory outputs (exec bits, symlinks incl. dangling/escaping, empty dirs, duplicate contents, odd names) are cached with Registry.WriteOutputs, the destination is put into one of 17 prior states (incl. a directory or an outward symlink where a file belongs), Registry.LoadOutputs must succeed and reproduce the recursive listing exactly.",
     "level_note": "Trusted: the listing function (type, exec bit, size, sha256, link target). Modes other than exec, mtimes and ownership are not compared. Real-binary restore paths are exercised by the history checks (C01/C02).",
@@ -68,10 +68,10 @@ TEXT["C04"] = {
     "level_note": "Fault enumeration is complete per generated output set for single faults (and up to 40 pairs); which output sets are generated is sampled. Leaked goroutines after Walk returned are not violations.",
 }
 TEXT["C10"] = {
-    "engine": "harness/c10: controller + real contender processes built with a check-time yield-point overlay of the current workspace_locker.go (cmd/lockrewrite, c10/hooks.go.txt, cmd/contender)",
-    "technique": "controlled-schedule testing of real processes: bounded exhaustive stateless DFS over all 2-process interleavings of file-system steps with crash points, plus rapid-drawn 3-process schedules with crashes and cancels",
+    "engine": "harness/c10: controller + real contender processes built with a check-time yield-point overlay of the current workspace_locker.go (cmd/lockrewrite, c10/hooks.go.txt, cmd/contender); part binary: real grog build processes in one workspace",
+    "technique": "controlled-schedule testing of real processes: bounded exhaustive stateless DFS over all 2-process interleavings of file-system steps with crash points, plus rapid-drawn 3-process schedules with crashes and cancels, plus sampled-timing runs of 2-3 real `grog build` processes with kills and interrupts",
     "design_ref": "DESIGN.md §4 C10",
-    "level_text": "Every interleaving of two contenders' individual file-system operations up to 8 (quick) / 12 (thorough) scheduling decisions, with at most one kill -9 at any yield point, from five initial lock-file states, cold and with an established holder (where a waiter may also be cancelled), is executed against the real locker; random 3-process schedules extend this. Safety (never two holders, newcomer cannot enter), no Lock error, progress of survivors and recovery by a fresh process are checked.",
+    "level_text": "Every interleaving of two contenders' individual file-system operations up to 8 (quick) / 12 (thorough) scheduling decisions, with at most one kill -9 at any yield point, from five initial lock-file states, cold and with an established holder (where a waiter may also be cancelled), is executed against the real locker; random 3-process schedules extend this. Safety (never two holders, newcomer cannot enter), no Lock error, progress of survivors and recovery by a fresh process are checked. Part binary: real builds started at generated offsets, one may be killed or interrupted; no command of one grog may start inside a command of another (append order of a shared trace), unsignalled builds exit 0, a holder killed alone while its command sleeps on must not block the next build, a final build leaves exact outputs.",
     "level_note": "Exhaustive only within the decision bound and for 2 processes; steps are serialised by the controller (atomic file-system calls). The yield-point table is fixed (os.OpenFile/ReadFile/Remove/Stat/..., Write/Close/Truncate, syscall.Flock, Process.Signal, time.After).",
 }
 
@@ -88,8 +88,8 @@ _hist_text("C02", "stateful model-based property testing: executed sets (trace l
 _hist_text("C05", "stateful model-based property testing with injected command failures (undeclared switch files) in keep-going and fail-fast mode, plus walker-level containment in a synctest bubble",
     "Failing subsets (exit status, missing declared output, timeout, failing/wrong post-condition, self-SIGKILL) are switched on and off without moving cache keys. Keep-going: independent targets complete, dependants are skipped, exit != 0, failed targets named, nothing cached (follow-up build runs them again). Fail-fast at walker level: no command starts at a later virtual instant than the first failure.",
     "For fail-fast builds of the real binary only the safe half is asserted (dependants of a failed target never run; exit != 0); which independent targets still start is timing dependent and left MAY.")
-_hist_text("C13", "stateful model-based property testing over taint / no-cache / enable_cache histories with a three-valued model and a listed known finding",
-    "grog taint, no-cache tag toggles and --enable-cache=false builds are mixed with edits and failures; forced targets must run, a successful forced run consumes the taint (a failed one does not), dependants with unchanged dependency outputs stay cached.",
+_hist_text("C13", "stateful model-based property testing over taint / no-cache / enable_cache histories with a three-valued model, plus an in-process differential check of the two output-hash paths (cached vs uncached) over generated outputs",
+    "grog taint, no-cache tag toggles and --enable-cache=false builds are mixed with edits and failures; forced targets must run, a successful forced run consumes the taint (a failed one does not), dependants with unchanged dependency outputs stay cached. hash-agreement: for generated file/dir outputs (incl. symlinked file outputs) Registry.WriteOutputs and Registry.GetNoCacheOutputHash must return the same output hash, which must move with content and exec-bit changes only.",
     "One known finding is listed (dependants rebuilt once after a dependency switches between cached and uncached execution, two output-hash formulas); the model recognises exactly that pattern, reports it as KNOWN-FINDING and continues the history.")
 _hist_text("C14", "stateful model-based property testing with external post-conditions (markers outside the workspace), timeouts, missing outputs and signal deaths",
     "Output checks over external markers are established, cached, destroyed and falsified; commands may skip a declared output, overrun their timeout or die from SIGKILL. Success (exit 0, cached) is only accepted when the command ended, all outputs exist and all checks pass; a failing check forces execution despite a cached result.",
